@@ -20,9 +20,11 @@ FOREIGN = [[], [['{http://x/}a', '1']], [['{http://x/}a', '2'], ['{http://y/}b',
 REPRS = ['plain', 'element', 'parsed']
 
 # how the additional ways of writing an operation read for the reference and the model
-ALIAS = {'ior_item': 'update', 'isub_item': 'discard', 'self_assign': 'read', 'assign_gen': 'read', 'assign_filter': 'discard'}
+ALIAS = {'ior_item': 'update', 'isub_item': 'discard', 'self_assign': 'read', 'assign_gen': 'read', 'assign_filter': 'discard',
+         # a component handed out earlier (object set, attachment dictionary) is changed after the event was looked at / written
+         'add_held': 'add', 'discard_held': 'discard', 'att_setitem_held': 'att_setitem'}
 OP_KINDS = ['set', 'set1', 'del', 'add', 'remove', 'discard', 'update', 'clear', 'pop', 'set_properties', 'props_setter', 'iadd',
-            'ior_item', 'isub_item', 'self_assign', 'assign_gen', 'assign_filter',
+            'ior_item', 'isub_item', 'self_assign', 'assign_gen', 'assign_filter', 'add_held', 'discard_held', 'att_setitem_held',
             'set_attachment_dict', 'set_attachment_str', 'set_attachment_list', 'set_attachment_none', 'att_setitem', 'att_delitem',
             'att_del', 'atts_setter', 'set_parents', 'add_parents', 'set_type', 'set_source', 'set_foreign', 'copy', 'read', 'write']
 
@@ -161,6 +163,19 @@ def apply_real(events, op):
         e[op['p']] = (v for v in e[op['p']])
     elif k == 'assign_filter':
         e[op['p']] = filter(lambda v: v != op['v'], e[op['p']])
+    elif k in ('add_held', 'discard_held', 'att_setitem_held'):
+        held = e[op['p']] if k != 'att_setitem_held' else e.attachments[op['a']]
+        # the event is looked at from all sides (and written) while the caller holds on to the component
+        e.get_element()
+        e.get_properties()
+        e.get_attachments()
+        apply_real(events, {'k': 'write', 'on': op['on']})
+        if k == 'add_held':
+            held.add(op['v'])
+        elif k == 'discard_held':
+            held.discard(op['v'])
+        else:
+            held[op['i']] = op['v']
     elif k == 'clear':
         e[op['p']].clear()
     elif k == 'pop':
@@ -264,7 +279,7 @@ def gen_op(rng, n_objects, state_of, kinds=OP_KINDS):
         op['vs'] = [rng.choice(VALS)]
     elif k in ('del', 'clear'):
         op['p'] = rng.choice(PROPS)
-    elif k in ('add', 'discard'):
+    elif k in ('add', 'discard', 'add_held', 'discard_held'):
         op['p'] = rng.choice(PROPS)
         op['v'] = rng.choice(VALS)
     elif k in ('remove', 'pop'):
@@ -285,7 +300,7 @@ def gen_op(rng, n_objects, state_of, kinds=OP_KINDS):
         op['vs'] = rng.sample(AVALS, rng.randint(1, 2))
     elif k in ('set_attachment_none', 'att_del'):
         op['a'] = rng.choice(ATTS)
-    elif k == 'att_setitem':
+    elif k in ('att_setitem', 'att_setitem_held'):
         op['a'], op['i'], op['v'] = rng.choice(ATTS), rng.choice(IDS), rng.choice(AVALS)
     elif k == 'att_delitem':
         op['a'], op['i'] = rng.choice(ATTS), rng.choice(IDS)
@@ -399,8 +414,9 @@ class C07(Property):
                 step = {'err': err, 'objects': []}
                 for e in events:
                     try:
+                        # (the element first: reading through the API must not be what brings it up to date)
+                        x = element_view(e)
                         a = api_view(e)
-                        x = element_view(e) if rep != 'plain' else None
                     except Exception as ex:
                         a, x = 'err:' + type(ex).__name__, None
                     step['objects'].append({'api': a, 'xml': x})
@@ -453,7 +469,7 @@ class C07(Property):
                 objs = []
                 for o in st['objects']:
                     api = dict(o['abs'], mapping_ok=True)
-                    xml = dict(o['xml'], duplicates=False) if rep != 'plain' else None
+                    xml = dict(o['xml'], duplicates=False)
                     objs.append({'api': api, 'xml': xml})
                 trace.append({'err': None, 'objects': objs, 'eq': st['eq']})
             out[rep] = trace
